@@ -207,3 +207,71 @@ def run_c16(tier):
            "panics": summ["panics"]}
     finish(prop, tier, t0, findings, cov, triggers={"node_collides": lambda f: bool(f.get("collides"))}, assumptions=[
         "language T is produced by the in-repo define_language! (Cargo [patch]); only the laws are demanded, not the particular numbering"])
+
+
+PARSE_SIG = {"f": {"nsl": 2, "bind": []}, "v": {"nsl": 1, "bind": []}, "c": {"nsl": 0, "bind": []},
+             "g": {"nsl": 0, "bind": [0]}, "h": {"nsl": 0, "bind": [0, 0]}, "lam": {"nsl": 0, "bind": [1]},
+             "let": {"nsl": 0, "bind": [1, 0]}}
+PARSE_TOKS = [["lp", ""], ["rp", ""], ["lb", ""], ["rb", ""], ["ce", ""], ["id", "f"], ["id", "g"], ["id", "c"],
+              ["id", "lam"], ["id", "7"], ["pv", "x"], ["sl", "1"]]
+PARSE_CHARS = ["(", ")", "[", "]", ":", "=", "?", "$", " ", "g", "c", "1"]
+
+
+def run_c18(tier):
+    t0 = time.time()
+    prop = "C18"
+    cfg = open(os.path.join(SPEC, "MC_Parse.cfg")).read()
+    findings, summaries, tl = [], [], {}
+    L = 5 if tier == "quick" else 6
+    for mode, alpha in [("tok", PARSE_TOKS), ("chr", PARSE_CHARS)]:
+        defs = {"MCSig": PARSE_SIG, "MCPayloads": tla_set(["7", "1", "11", "111", "1111", "11111", "111111"]),
+                "MCAlphabet": tla_set(alpha), "MCMaxLen": L, "MCMode": mode}
+        logp, st = run_tlc_root("C18_" + mode, "MC_Parse", defs, cfg, timeout=3000)
+        require_tlc_ok(st, logp, "MC_Parse " + mode)
+        acc = list(tlcout.tagged_lines(logp, "PARSEOK"))
+        tpath = os.path.join(os.path.dirname(logp), "table.json")
+        json.dump({"mode": mode, "alphabet": alpha, "maxlen": L, "accepted": acc}, open(tpath, "w"))
+        tl[mode] = (st, acc)
+        recs = jsonl(run_bin("default", "pa_replay", [tpath, ncpu()]))
+        s = [r for r in recs if r["kind"] == "summary"][0]
+        if s["strings"] != st["distinct"]:
+            raise ToolError("harness enumerated %d strings, TLC %d states" % (s["strings"], st["distinct"]))
+        summaries.append(s)
+        findings += [r for r in recs if r["kind"] == "finding"]
+    # direction B: mutated long texts, judged by TLC
+    cases = 300 if tier == "quick" else 3000
+    trace = os.path.join(OUT, "tlc", "C18_trace.ndjson")
+    rec = jsonl(run_bin("default", "pa_record", [trace, cases]))[0]
+    pay = [str(i) for i in range(1, 10)] + ["%d%d" % (i, j) for i in range(1, 10) for j in range(1, 10)]
+    tcfg = open(os.path.join(SPEC, "TraceParse.cfg")).read()
+    logp, tst = run_tlc_root("C18_trace", "TraceParse", {"MCSig": PARSE_SIG, "MCPayloads": tla_set(pay)}, tcfg, workers=1,
+                             env={"VERIF_TRACE": trace}, xss=True, deque=True, timeout=3000)
+    if not tst["ok"]:
+        sys.stderr.write(open(logp, errors="replace").read()[-3000:])
+        raise ToolError("TraceParse did not consume the whole trace")
+    lines = open(trace).read().splitlines()
+    for b in tlcout.tagged_lines(logp, "PARSEBAD"):
+        e = json.loads(lines[b["i"] - 1])
+        what = ("parser panics on mutated text" if e["panic"] else
+                "mutated text: implementation accepts, specification rejects" if e["ok"] and not b["spec_ok"] else
+                "mutated text: implementation rejects a well-formed text" if b["spec_ok"] and not e["ok"] else
+                "mutated text: parsed value differs / print-parse round trip fails")
+        findings.append({"kind": "finding", "prop": prop, "what": what, "site": e.get("site", ""),
+                         "detail": {"text": "".join(e["chars"]), "kind": e["kind"], "impl_ast": e["ast"], "spec_ast": b["spec_ast"], "msg": e.get("msg")}})
+    acc_b = sum(1 for l in lines if json.loads(l)["ok"])
+    cov = {"states": sum(v[0]["distinct"] for v in tl.values()) + tst["distinct"],
+           "transitions": sum(v[0]["generated"] for v in tl.values()) + tst["generated"],
+           "traces_validated_against_impl": sum(s["strings"] for s in summaries) + len(lines),
+           "samples": [{"tokens": tl["tok"][1][-1]["s"], "ast": tl["tok"][1][-1]["ast"]},
+                       {"mutated_text": "".join(json.loads(lines[3])["chars"]), "impl_ok": json.loads(lines[3])["ok"]}],
+           "evaluations": sum(s["strings"] for s in summaries) + len(lines),
+           "distinct_nontrivial": sum(len(v[1]) for v in tl.values()) + acc_b,
+           "rule": "ALL strings of <=%d tokens over a 12-token alphabet and ALL strings of <=%d characters over a 12-character alphabet "
+                   "(TLC state space = the strings; Parse.tla's Total/RoundTrip invariants on each); the harness enumerates the same strings "
+                   "itself: accepted ones must give exactly the emitted AST and round-trip, all others Err, nothing may panic; Pattern, RecExpr "
+                   "and MultiPattern entry points; plus %d mutated long texts recorded and judged by TraceParse.tla; non-trivial = accepted texts"
+                   % (L, L, len(lines)),
+           "exhaustive": True, "tlc": {k: v[0] for k, v in tl.items()}, "tlc_trace": tst, "replay": summaries, "recorder": rec}
+    finish(prop, tier, t0, findings, cov, assumptions=[
+        "language P (harness) has one payload variant (u32); payload texts in the models are canonical numerals",
+        "whitespace is the ASCII space in the models (the tokenizer uses Unicode White_Space)"])
